@@ -25,6 +25,11 @@ Theorem C17_name_denotes : forall t, wf_ty t -> exists f0, forall f, f0 <= f -> 
 Proof. exact name_denotes. Qed.
 Print Assumptions C17_name_denotes.
 
+(* ... with a computable fuel: the number of nodes of the printed tree (segments and list cells counted) *)
+Theorem C17_name_denotes_fuel : forall t, wf_ty t -> denoted (cost (rewrite (std_ast t))) (recorded_name t) = Some t.
+Proof. exact name_denotes_cost. Qed.
+Print Assumptions C17_name_denotes_fuel.
+
 (* two different types never share a recorded name, hence never a table key *)
 Theorem C17_names_distinct : forall t1 t2, wf_ty t1 -> wf_ty t2 -> recorded_name t1 = recorded_name t2 -> t1 = t2.
 Proof. exact recorded_name_inj. Qed.
